@@ -425,7 +425,9 @@ func c10Check(cs c10Case) (core.Outcome, bool) {
 		place(inter.file, d, s)
 		var sink bytes.Buffer
 		var ierr error
-		if p := guard(func() { ierr = decorator.NewRestorerWithImports(c10Paths[0], simple.New(names)).Fprint(&sink, inter.file) }); p != "" || ierr != nil {
+		if p := guard(func() {
+			ierr = decorator.NewRestorerWithImports(c10Paths[0], simple.New(names)).Fprint(&sink, inter.file)
+		}); p != "" || ierr != nil {
 			return fail("intermediate-restore-fails", "restoring the item inside the package it refers to: panic %q error %v", p, ierr)
 		}
 		if d != nil {
